@@ -253,7 +253,7 @@ def _match_compress(k, exprs):
         "bzip2": [r"bz2\.compress\(block_bytes\)", r"bz2\.compress\(B\)"],
         "xz": [r"lzma\.compress\(block_bytes\)", r"lzma\.compress\(B\)"],
         "snappy": [r"snappy_compress\(block_bytes\)", r"snappy_compress\(B\)"],
-        "zstandard": [r"zstandard\.ZstdCompressor\((level=compression_level)?\)\.compress\(block_bytes\)"],
+        "zstandard": [r"zstandard\.ZstdCompressor\((level=compression_level)?\)\.compress\(block_bytes\)", r"zstandard\.ZstdCompressor\((level=L)?\)\.compress\(B\)"],
         "lz4": [r"lz4\.block\.compress\(block_bytes\)", r"lz4\.block\.compress\(B\)"],
     }.get(k)
     if pats is None:
